@@ -301,6 +301,16 @@ V_C06_Propagates ==
                                       \/ TS(pid, p).catchDone /\ TS(pid, p).caught = e } }
                : pid \in LivePids }
 
+(* a task that declares a catch for its error and has not used its catch yet *)
+(* does not stay failed: the catch takes the error                           *)
+V_C06_Taken ==
+  UNION { { V("C06_Taken", pid, t, {}) :
+              t \in { x \in TaskKeys(pid) :
+                       /\ TS(pid, x).st = "error" /\ ~TS(pid, x).catchDone /\ TS(pid, x).err # NIL
+                       /\ LET cs == ND(pid, x).catches IN
+                          \E i \in DOMAIN cs : cs[i] = NIL \/ cs[i] = TS(pid, x).err } }
+          : pid \in LivePids }
+
 (* a catch takes only an error it matches, and it is the first matching one  *)
 V_C06_CatchMatches ==
   UNION { { V("C06_CatchMatches", pid, t, {}) :
@@ -500,6 +510,7 @@ C05_AtMostOnce       == HoldsX(V_C05_AtMostOnce)
 C05_NoDupSuccessor   == HoldsX(V_C05_NoDupSuccessor)
 C06_Propagates       == HoldsX(V_C06_Propagates)
 C06_CatchMatches     == HoldsX(V_C06_CatchMatches)
+C06_Taken            == HoldsX(V_C06_Taken)
 C06_CatchStepsOnce   == HoldsX(V_C06_CatchStepsOnce)
 C06_CaughtCompletes  == HoldsX(V_C06_CaughtCompletes)
 C08_AtMostOne        == HoldsX(V_C08_AtMostOne)
@@ -643,7 +654,7 @@ AllV ==
   \cup V_C03_Events \cup V_C03_TerminalEvent \cup V_C03_CleanEnding
   \cup V_C04_Outcome \cup V_C04_Order \cup V_C05_Admission
   \cup V_C05_TerminalRejected \cup V_C05_AtMostOnce \cup V_C05_NoDupSuccessor
-  \cup V_C06_Propagates \cup V_C06_CatchMatches \cup V_C06_CatchStepsOnce
+  \cup V_C06_Propagates \cup V_C06_CatchMatches \cup V_C06_Taken \cup V_C06_CatchStepsOnce
   \cup V_C06_CaughtCompletes \cup V_C08_AtMostOne \cup V_C08_CreatedFirst
   \cup V_C08_TerminalReported \cup V_C08_BranchSilent \cup V_C08_MsgAct \cup V_C08_ParentFirst
   \cup V_C19_Once \cup V_C19_NeverEarly \cup V_C19_OnlyOpen \cup V_C19_Prompt
